@@ -37,6 +37,9 @@ def get_inherited(t: Type) -> Type:
         return Any  # type: ignore
 
     r = base_classes[0]  # type: ignore
+    if get_origin(r) is typing.Generic:
+        # `class C(Generic[T])` - there is nothing to inherit from
+        return Any  # type: ignore
 
     g_args = get_args(t)
     if len(g_args) > 0:
